@@ -239,9 +239,24 @@ def _loopback(ck, p):
     pv = Prov(main)
     # every socket-creating / sending call of any socket API (tokio, std, unix-domain, mio, socket2) made by
     # main itself - helpers that are new since the reference tree are spliced in by A0
-    binds = [(bi, t) for bi, t in main.calls() if re.search(r"(^|::)net::|^socket2::|^mio::", norm(t["f"].get("inst") or "")) and S_NETLIKE.search(norm(t["f"].get("inst") or ""))]
+    # ... and async helpers that are new since the reference tree and awaited from main are looked into
+    from ..common import new_async_helper
+    bodies = [main]
+    for _ in range(3):
+        for b0 in list(bodies):
+            for _bi, t0 in b0.calls():
+                h0 = new_async_helper(p, t0)
+                if h0 is not None and h0 not in bodies:
+                    bodies.append(h0)
+    binds = []
+    for b0 in bodies:
+        ck.saw(b0)
+        for bi, t in b0.calls():
+            if re.search(r"(^|::)net::|^socket2::|^mio::", norm(t["f"].get("inst") or "")) and S_NETLIKE.search(norm(t["f"].get("inst") or "")):
+                binds.append((b0, bi, t))
     ck.floor(rule, "socket-creating calls in main", len(binds), 1)
-    for bi, t in binds:
+    for main, bi, t in binds:
+        pv = Prov(main)
         inst = t["f"]["inst"]
         key = "loopback:%s" % inst
         if not (inst.endswith("::bind") and "tokio::net::" in inst and "tcp" in inst.lower()):
